@@ -261,10 +261,43 @@ class Run:
         self.known_seen.append(kid)
 
     def findings(self):
-        p = VERIF / "known_findings.json"
-        if not p.exists():
-            return []
-        return [f for f in json.loads(p.read_text())["findings"] if self.prop in f["properties"]]
+        """known findings that list this property (one JSON file per finding
+        under known_findings/, committed; never written at run time)"""
+        res = []
+        d = VERIF / "known_findings"
+        if d.exists():
+            for p in sorted(d.glob("*.json")):
+                f = json.loads(p.read_text())
+                if self.prop in f.get("properties", []):
+                    res.append(f)
+        return res
+
+    def replay_findings(self, handlers):
+        """handlers: {finding id: fn(entry) -> 'buggy' | 'correct' | 'other: <what>'}
+        open  + buggy   -> KNOWN-FINDING line (exit code unaffected)
+        open  + correct -> quiet (someone repaired the code)
+        fixed + buggy   -> VIOLATION (the defect came back)
+        anything 'other' -> VIOLATION (a different failure on the witness)
+        returns {id: outcome}"""
+        res = {}
+        for f in self.findings():
+            h = handlers.get(f["id"])
+            if h is None:
+                continue
+            try:
+                o = h(f)
+            except CheckBroken:
+                raise
+            res[f["id"]] = o
+            if o == "buggy":
+                if f.get("status") == "fixed":
+                    self.violation({"kind": "fixed-defect-returned", "finding": f, "observed": o})
+                else:
+                    self.known_finding(f["id"], f["what"])
+            elif o != "correct":
+                self.violation({"kind": "witness-of-known-finding-fails-differently", "finding": f, "observed": o})
+        self.findings_outcome = res
+        return res
 
     # --------------------------------------------------------------- evidence
     def finish(self, coverage, assumptions=None, level="proof"):
